@@ -5,6 +5,7 @@ import (
 	"fmt"
 	"net/http/httptest"
 	"os"
+	"path/filepath"
 	"strings"
 	"time"
 
@@ -256,9 +257,16 @@ func c10Merge(c *mc.Ctx) {
 	mode := []string{"", "--no-ff", "--ff-only"}[c.Choose(3)]
 	viaPull := c.Choose(2) == 1
 	order := c.ChooseDev(3)
+	extra := 0 // 1: --commit-csv <resolved file>, 2: --no-gui (wrgl merge only)
+	if !viaPull {
+		extra = c.ChooseDev(4) // 3: the branch is named through a revision expression (main^)
+	}
+	if extra == 3 && len(c10graph.Parents[rel.old]) == 0 {
+		c.Skip() // main^ does not exist
+	}
 	c.Shard()
 	pool := c12Pool()
-	desc := fmt.Sprintf("merge relation=%s(branch=node %d, other=node %d) mode=%q viaPull=%v timeorder=%d", rel.name, rel.old, rel.new, mode, viaPull, order)
+	desc := fmt.Sprintf("merge relation=%s(branch=node %d, other=node %d) mode=%q viaPull=%v timeorder=%d extra=%s", rel.name, rel.old, rel.new, mode, viaPull, order, []string{"none", "--commit-csv", "--no-gui", "branch-as-main^"}[extra])
 	c.Logf("%s", desc)
 	repo, err := newCLIRepo()
 	if err != nil {
@@ -314,9 +322,27 @@ func c10Merge(c *mc.Ctx) {
 		args = []string{"pull", "main", "origin", "refs/heads/main:refs/remotes/origin/main", "-n", "1"}
 	} else {
 		args = []string{"merge", "main", "other", "-n", "1"}
+		if extra == 3 {
+			args[1] = "main^"
+		}
 	}
 	if mode != "" {
 		args = append(args, mode)
+	}
+	switch extra {
+	case 1:
+		// an "already resolved" CSV: the rows of the other commit's table
+		pt := pool[tbls[rel.new]].st
+		var pk []string
+		for _, i := range pt.tbl.PK {
+			pk = append(pk, pt.tbl.Columns[i])
+		}
+		if err := os.WriteFile(filepath.Join(repo.root, "resolved.csv"), csvBytes(pt.tbl.Columns, pt.rows, 0), 0644); err != nil {
+			panic(err)
+		}
+		args = append(args, "--commit-csv", filepath.Join(repo.root, "resolved.csv"), "--primary-key", strings.Join(pk, ","))
+	case 2:
+		args = append(args, "--no-gui")
 	}
 	var out string
 	var cerr error
@@ -351,6 +377,9 @@ func c10Merge(c *mc.Ctx) {
 	}
 	otherIsDescendant := rel.old != rel.new && descends(anc, rel.new, rel.old)
 	switch {
+	case extra == 3:
+		// the branch named through main^: the command may refuse; whatever it does, the branch must
+		// not leave its own history (checked above) and a move must be logged (checked below)
 	case otherIsDescendant && mode != "--no-ff":
 		if headNode != rel.new {
 			c.Fail("ff-not-exact", "a fast-forward merge must move the branch exactly to the other commit (node %d) but it points to %x (node %d); output %q err %v; %s", rel.new, head, headNode, out, cerr, desc)
@@ -365,6 +394,8 @@ func c10Merge(c *mc.Ctx) {
 			c.Fail("rejection-not-reported", "--ff-only with diverged histories did not fail; output %q; %s", out, desc)
 			return
 		}
+	case (rel.name == "diverged" || (otherIsDescendant && mode == "--no-ff")) && extra == 2 && headNode == rel.old:
+		// --no-gui may write conflicts / resolved rows to a file instead of committing: the branch stays
 	case rel.name == "diverged" || (otherIsDescendant && mode == "--no-ff"):
 		// a merge commit whose parents are the branch and the other commit
 		if cerr != nil {
@@ -396,13 +427,13 @@ func init() {
 		ID:    "C10",
 		Level: "exploration",
 		Rule: "fetch and push through the real command tree against the reference server, each operation carrying TWO refs: the first (sorted first) with every history relation between its old and offered value in {new ref, equal, ahead, far ahead, ahead through a merge that also reaches the grandparent directly, behind, diverged, unrelated} x ref kind {head->remote-tracking / head->head, tag, custom ref, head->head} x '+' on its refspec; " +
-			"the second (sorted last) from {legal new ref, unforced diverged, '+' diverged, unforced moved tag, fast-forward}; (deviations) global --force, commit-time order {topological, reversed, equal}. merge and pull: relation in {equal, ahead, far ahead, ahead-with-shortcut, behind, diverged} x {default, --no-ff, --ff-only} x {wrgl merge, wrgl pull}. All 640+36 combinations are run on an on-disk repository. " +
+			"the second (sorted last) from {legal new ref, unforced diverged, '+' diverged, unforced moved tag, fast-forward}; (deviations) global --force, commit-time order {topological, reversed, equal}. merge and pull: relation in {equal, ahead, far ahead, ahead-with-shortcut, behind, diverged} x {default, --no-ff, --ff-only} x {wrgl merge, wrgl pull}, wrgl merge also with --commit-csv <resolved file>, with --no-gui and with the branch named through a revision expression (main^) (thorough: also commit-time orders). All 640+72 combinations are run on an on-disk repository. " +
 			"Oracle (ref-transition model): an unforced update lands only if the new value descends from the old one and never replaces an existing tag; a refused update leaves the ref unchanged and is reported; every ref is judged on its own relation and its own force flag (one ref's '+' or rejection never changes another ref's outcome); a fast-forward merge moves the branch exactly to the other commit; --ff-only refuses diverged histories; " +
 			"every ref that changed has a newest reflog entry with the true old and new values and resolves to a stored commit. non-trivial / distinct = every combination",
 		Assumptions: []string{"for push the reference server applies exactly the updates it is asked to apply, so the check is on what the client requests and reports", "history relations are realised on a fixed 6-commit universe"},
 		Harnesses: []*mc.Harness{
 			{Name: "fetch-push-refs", Body: c10FetchPush, DevBound: map[string]int{"quick": 0, "thorough": 1}, Budget: map[string]time.Duration{"quick": 75 * time.Second, "thorough": 8 * time.Minute}},
-			{Name: "merge-pull", Body: c10Merge, DevBound: map[string]int{"quick": 0, "thorough": 1}, Budget: map[string]time.Duration{"quick": 60 * time.Second, "thorough": 5 * time.Minute}},
+			{Name: "merge-pull", Body: c10Merge, DevBound: map[string]int{"quick": 1, "thorough": 2}, Budget: map[string]time.Duration{"quick": 60 * time.Second, "thorough": 5 * time.Minute}},
 		},
 	})
 }
